@@ -95,7 +95,7 @@ tmp_remove (void)
 static void
 on_alarm_c10 (int sig)
 {	(void) sig ;
-	_exit (3) ;
+	SFH_EXIT (3) ;
 }
 
 /* one point; prints exactly one line (assembled first, so a crash never leaves half a line) */
@@ -201,7 +201,7 @@ run_slice (int base)
 				run_point (f, c, s) ;
 				fflush (stdout) ;
 				}
-			_exit (0) ;
+			SFH_EXIT (0) ;
 			}
 		waitpid (pid, &st, 0) ;
 		if (WIFEXITED (st) && WEXITSTATUS (st) == 0)
@@ -299,7 +299,7 @@ grid_c10 (int argc, char **argv)
 		pid = fork () ;
 		if (pid == 0)
 		{	signal (SIGALRM, on_alarm_c10) ;
-			run_point (f, c, s) ; fflush (stdout) ; _exit (0) ;
+			run_point (f, c, s) ; fflush (stdout) ; SFH_EXIT (0) ;
 			}
 		waitpid (pid, &st, 0) ;
 		if (! (WIFEXITED (st) && WEXITSTATUS (st) == 0))
